@@ -35,7 +35,7 @@ def required(tier):
 
 def gen_cases(seed, tier):
     rng = np.random.default_rng([seed, 1])
-    n = 1600 if tier == 'quick' else 60000
+    n = 1600 if tier == 'quick' else 160000
     cases = []
     for i in range(n):
         g = work_sig.gen_geometry(rng, tier)
